@@ -2,7 +2,7 @@
    keeps the invariant; consequently no received frame can panic the receive path. *)
 From Coq Require Import NArith ZArith List Bool Lia Arith ZifyBool ZifyNat ZifyN.
 From LoraV Require Import Base.Bytes Crypto.AES Model.Frame Model.MacCmd Gen.CmdTables Gen.RegionTables Model.Region Model.Mac
-  Proofs.OtaaProofs Proofs.TxProofs.
+  Spec.RP002 Proofs.WindowProofs Proofs.OtaaProofs Proofs.TxProofs.
 Import ListNotations.
 Ltac Zify.zify_post_hook ::= Z.to_euclidean_division_equations.
 Local Open Scope nat_scope.
@@ -53,13 +53,17 @@ Proof.
 Qed.
 
 (* ------------------------------------------------------------------ the shape invariant of a region and of the configuration *)
-Definition jc_ok (j : join_channels) : Prop := length (jc_avail j) = 9.
-Definition region_ok (g : region) : Prop :=
-  (rg_id g < 9)%N /\
+Definition jc_ok (j : join_channels) : Prop :=
+  length (jc_avail j) = 9 /\
+  match jc_preferred j with Some sb => (sb <= 8)%N | None => True end /\
+  match jc_avail_prev j with Some pv => (pv <= 71)%N | None => True end /\ (jc_previous j <= 71)%N.
+Definition plan_shape (g : region) : Prop :=
   match rg_plan g with
   | PDyn p => dyn_ok (rg_id g) p /\ length (dp_mask p) = 9 /\ (1 <= r_num_join (rg_id g) <= 3)%N
   | PFix p => length (fp_mask p) = 9 /\ jc_ok (fp_jc p)
   end.
+Definition plan_kind (g : region) : Prop := r_fixed (rg_id g) = match rg_plan g with PFix _ => true | PDyn _ => false end.
+Definition region_ok (g : region) : Prop := (rg_id g < 9)%N /\ plan_shape g /\ plan_kind g.
 Definition cfg_ok (g : region) (cf : configuration) : Prop :=
   uplink_dr g (cf_data_rate cf) <> None /\ (cf_rx1_dr_offset cf < 8)%N.
 
@@ -74,18 +78,19 @@ Qed.
 
 Lemma region_mask_set_ok g m : region_ok g -> length m = 9 -> region_ok (region_mask_set g m).
 Proof.
-  intros [Hr Hp] H9. unfold region_ok, region_mask_set. cbn [rg_id rg_plan]. split; [exact Hr|].
+  intros [Hr [Hp Hk]] H9. unfold region_ok, plan_shape, plan_kind, region_mask_set in *. cbn [rg_id rg_plan]. split; [exact Hr|].
   destruct (rg_plan g) as [p|p].
-  - destruct Hp as [Hd [_ HJ]]. cbn [dp_mask]. split; [|split; [exact H9|exact HJ]].
+  - split; [|exact Hk]. destruct Hp as [Hd [_ HJ]]. cbn [dp_mask]. split; [|split; [exact H9|exact HJ]].
     destruct Hd as [A [B C]]. repeat split; assumption.
-  - destruct Hp as [_ Hj]. unfold fix_mask_set. cbn [fp_mask fp_jc]. split; [exact H9|]. unfold jc_ok, jc_reset. cbn [jc_avail]. reflexivity.
+  - split; [|exact Hk]. destruct Hp as [_ Hj]. unfold fix_mask_set. cbn [fp_mask fp_jc]. split; [exact H9|].
+    unfold jc_ok, jc_reset in *. cbn [jc_avail jc_preferred jc_avail_prev jc_previous]. tauto.
 Qed.
 
 Lemma uplink_dr_mask_set g m d : uplink_dr (region_mask_set g m) d = uplink_dr g d.
 Proof. unfold uplink_dr, region_mask_set. cbn [rg_plan rg_id]. destruct (rg_plan g); reflexivity. Qed.
 
 Lemma region_mask_len g : region_ok g -> length (region_mask g) = 9.
-Proof. intros [_ Hp]. unfold region_mask. destruct (rg_plan g); tauto. Qed.
+Proof. intros [_ [Hp _]]. unfold region_mask, plan_shape in *. destruct (rg_plan g); tauto. Qed.
 
 Lemma set_channel_total m ch on : N.to_nat (ch / 8) < length m -> exists m', set_channel m ch on = Val m' /\ length m' = length m.
 Proof.
@@ -112,12 +117,13 @@ Proof.
     - destruct (dyn_dl_update (rg_id (h_rg h)) pl (nthN p 0) (le_value (slice p 1 4) * 100)) as [pl' [af ac]] eqn:Ed.
       eexists. split; [reflexivity|]. unfold hinv. cbn [h_rg h_cf h_mask].
       assert (Hpl' : pl' = fst (dyn_dl_update (rg_id (h_rg h)) pl (nthN p 0) (le_value (slice p 1 4) * 100))) by (rewrite Ed; reflexivity).
-      destruct Hrg as [Hr Hp]. rewrite Ep in Hp. destruct Hp as [Hd [H9 HJ]].
+      destruct Hrg as [Hr [Hp Hk]]. unfold plan_shape, plan_kind in Hp, Hk. rewrite Ep in Hp, Hk. destruct Hp as [Hd [H9 HJ]].
       assert (Hm' : dp_mask pl' = dp_mask pl).
       { rewrite Hpl'. unfold dyn_dl_update. destruct (16 <=? nthN p 0)%N; [reflexivity|]. destruct (mask_bit _ _); [|reflexivity].
         destruct (nth _ _ _); [|reflexivity]. destruct (ch_freq c =? 0)%N; [reflexivity|]. destruct (frequency_valid _ _); reflexivity. }
       split; [|split; [|exact Hm]].
-      + unfold region_ok. cbn [rg_id rg_plan]. split; [exact Hr|]. split; [rewrite Hpl'; apply dl_update_keeps_ok; exact Hd|]. rewrite Hm'. tauto.
+      + unfold region_ok, plan_shape, plan_kind. cbn [rg_id rg_plan]. split; [exact Hr|]. split; [|exact Hk].
+        split; [rewrite Hpl'; apply dl_update_keeps_ok; exact Hd|]. rewrite Hm'. tauto.
       + destruct Hcf as [C1 C2]. split; [|exact C2]. unfold uplink_dr in *. cbn [rg_plan rg_id]. rewrite Ep in C1. exact C1.
     - eexists. split; [reflexivity|]. unfold hinv. tauto. }
   destruct (N.eq_dec cid 8) as [->|N8].
@@ -133,7 +139,7 @@ Proof.
     split; cbn [cf_data_rate cf_rx1_dr_offset]; [exact C1|]. pose proof (max_off_lt_8 _ (proj1 Hrg)). lia. }
   destruct (N.eq_dec cid 7) as [->|N7].
   { destruct (rg_plan (h_rg h)) as [pl|pl] eqn:Ep; [|eexists; split; [reflexivity|]; unfold hinv; tauto].
-    destruct Hrg as [Hr Hp]. rewrite Ep in Hp. destruct Hp as [Hd [H9 HJ]].
+    destruct Hrg as [Hr [Hp Hk]]. unfold plan_shape, plan_kind in Hp, Hk. rewrite Ep in Hp, Hk. destruct Hp as [Hd [H9 HJ]].
     set (drr := if (N.shiftr (nthN p 4) 4 <? N.land (nthN p 4) 15)%N then None else Some (nthN p 4)).
     destruct (dyn_new_channel (rg_id (h_rg h)) pl (nthN p 0) (le_value (slice p 1 4) * 100) drr) as [[pl' [af ad]]| |] eqn:En.
     - eexists. split; [reflexivity|]. unfold hinv. cbn [h_rg h_cf h_mask].
@@ -146,7 +152,8 @@ Proof.
           destruct (frequency_valid _ _ && _); [|intros H; injection H as <- _; exact H9].
           destruct (set_channel_total (dp_mask pl) (nthN p 0) true) as [m' [A B]]; [lia|]. rewrite A. intros H; injection H as <- _. cbn [dp_mask]. lia. }
       split; [|split; [|exact Hm]].
-      + unfold region_ok. cbn [rg_id rg_plan]. split; [exact Hr|]. split; [exact (new_channel_keeps_ok _ _ _ _ _ _ _ Hd En)|]. tauto.
+      + unfold region_ok, plan_shape, plan_kind. cbn [rg_id rg_plan]. split; [exact Hr|]. split; [|exact Hk].
+        split; [exact (new_channel_keeps_ok _ _ _ _ _ _ _ Hd En)|]. tauto.
       + destruct Hcf as [C1 C2]. split; [|exact C2]. unfold uplink_dr in *. cbn [rg_plan rg_id]. rewrite Ep in C1. exact C1.
     - exfalso. revert En. unfold dyn_new_channel. destruct (nthN p 0 <? r_num_join _)%N; [discriminate|].
       destruct (16 <=? nthN p 0)%N eqn:E16; [discriminate|].
@@ -278,3 +285,460 @@ Section NoPanic.
       + eexists. split; [reflexivity|]. cbn [ro_rg ro_cf]. split; assumption.
   Qed.
 End NoPanic.
+
+(* ------------------------------------------------------------------ MAC level *)
+Definition mac_ok (m : mac) : Prop := region_ok (m_region m) /\ cfg_ok (m_region m) (m_cfg m).
+
+Lemma mac_new_ok r p g : (r < 9)%N -> mac_ok (mac_new r p g).
+Proof.
+  intros Hr. unfold mac_ok, mac_new. cbn [m_region m_cfg].
+  assert (E : forallb (fun r => match rg_plan (region_new r) with
+                                | PDyn pl => negb (r_fixed r) && Nat.eqb (length (dp_mask pl)) 9 && (1 <=? r_num_join r)%N && (r_num_join r <=? 3)%N
+                                | PFix pl => r_fixed r && Nat.eqb (length (fp_mask pl)) 9 && Nat.eqb (length (jc_avail (fp_jc pl))) 9 end
+                                && match uplink_dr (region_new r) 0 with Some _ => true | None => false end)
+                      (map N.of_nat (seq 0 9)) = true) by (vm_compute; reflexivity).
+  rewrite forallb_forall in E. specialize (E r).
+  assert (Hin : In r (map N.of_nat (seq 0 9))) by (apply in_map_iff; exists (N.to_nat r); split; [lia|apply in_seq; lia]).
+  specialize (E Hin). apply andb_true_iff in E. destruct E as [E1 E2].
+  split.
+  - unfold region_ok, plan_shape, plan_kind. split; [exact Hr|]. unfold region_new in *. cbn [rg_plan rg_id] in *.
+    destruct (r_fixed r) eqn:Ef.
+    + apply andb_true_iff in E1. destruct E1 as [E1 B]. apply andb_true_iff in E1. destruct E1 as [_ A].
+      split; [|reflexivity]. split; [apply Nat.eqb_eq, A|]. unfold jc_ok, fix_new, jc_default. cbn. repeat split; lia.
+    + apply andb_true_iff in E1. destruct E1 as [E1 D]. apply andb_true_iff in E1. destruct E1 as [E1 C].
+      apply andb_true_iff in E1. destruct E1 as [_ B]. split; [|reflexivity].
+      split; [apply dyn_new_ok; assumption|]. split; [apply Nat.eqb_eq, B|]. lia.
+  - unfold cfg_ok. cbn [cf_data_rate cf_rx1_dr_offset]. split; [|lia].
+    destruct (uplink_dr (region_new r) 0); [discriminate|discriminate E2].
+Qed.
+
+Lemma ecb_len (f : list N -> list N) x : (forall b, length (f b) = 16) -> length x = 16 \/ length x = 32 -> length (L2Frame.ecb f x) = length x.
+Proof. intros Hf [H|H]; unfold L2Frame.ecb; rewrite H; cbn [Nat.div Nat.divmod fst]; rewrite ?app_length, !Hf; lia. Qed.
+
+Lemma ja_clear_length enc mac_fn bs key clear : (forall k b, length (enc k b) = 16) ->
+  ja_check_mic_and_decrypt enc mac_fn bs key = (Ok tt, clear) -> length clear = 17 \/ length clear = 33.
+Proof.
+  intros Hl. unfold ja_check_mic_and_decrypt, ja_decrypt_in_place, validate_join_accept_structure.
+  destruct (check_mhdr bs 1) as [u|e]; [|intros H; discriminate].
+  destruct (Nat.eqb (length bs) 17 || Nat.eqb (length bs) 33) eqn:E; [|intros H; discriminate].
+  destruct bs as [|b0 tl]; [discriminate|]. cbn [length] in E.
+  assert (Hx : length tl = 16 \/ length tl = 32) by lia.
+  cbn [skipn]. rewrite (Proofs.FrameProofs.map_blocks_ecb (enc key) tl Hx).
+  destruct (ja_validate_mic _ _ _); intros H; [|discriminate]. injection H as <-.
+  cbn [length]. rewrite (ecb_len (enc key) tl (Hl key) Hx). lia.
+Qed.
+
+Lemma cfl_of_clear_shape clear : length clear = 17 \/ length clear = 33 ->
+  match join_cflist clear with CflDyn fs => length fs = 5 | CflFix mk => length mk = 9 | CflNone => True end.
+Proof.
+  intros Hl. unfold join_cflist, ja_c_f_list. destruct (Nat.eqb (length clear) 17) eqn:E; [exact I|].
+  assert (H33 : length clear = 33) by lia.
+  destruct (nthN (slice clear 13 29) 15) as [|[[]|[]|]]; try exact I; [reflexivity|].
+  unfold slice. rewrite firstn_length, firstn_length, skipn_length, H33. reflexivity.
+Qed.
+
+Lemma region_ok_wf g : region_ok g -> region_wf g.
+Proof. intros [_ [H _]]. unfold region_wf, plan_shape in *. destruct (rg_plan g); [|exact I]. destruct H as [[H16 _] [_ HJ]]. split; [exact H16|lia]. Qed.
+
+Lemma region_join_accept_total g c : region_ok g ->
+  match c with CflDyn fs => length fs = 5 | CflFix mk => length mk = 9 | CflNone => True end ->
+  exists g', region_join_accept g c = Val g' /\ region_ok g' /\ (forall d, uplink_dr g' d = uplink_dr g d).
+Proof.
+  intros Hok Hc. pose proof (cflist_applied g c (region_ok_wf g Hok)) as S.
+  destruct Hok as [Hr [Hp Hk]]. unfold region_ok, plan_shape, plan_kind, uplink_dr in *.
+  destruct (rg_plan g) as [p|p] eqn:Ep; destruct c as [|fs|mk].
+  - exists g. split; [exact S|]. rewrite Ep. split; [split; [exact Hr|split; assumption]|reflexivity].
+  - destruct (S Hc) as [chs' [S1 [S2 _]]]. eexists. split; [exact S1|]. cbn [rg_id rg_plan dp_mask]. split; [|reflexivity].
+    split; [exact Hr|]. split; [|exact Hk]. destruct Hp as [Hd [H9 HJ]]. split; [|split; assumption].
+    pose proof S1 as S1'. unfold region_join_accept in S1'. rewrite Ep in S1'.
+    destruct (dyn_cflist (rg_id g) (dp_channels p) (N.to_nat (r_num_join (rg_id g))) fs) as [c2| |] eqn:Ec; try discriminate.
+    injection S1' as ->. apply (cflist_keeps_ok (rg_id g) p fs chs' Hd Hc); [lia|exact Ec].
+  - exists g. split; [exact S|]. rewrite Ep. split; [split; [exact Hr|split; assumption]|reflexivity].
+  - eexists. split; [exact S|]. cbn [rg_id rg_plan fp_mask fp_jc]. split; [|reflexivity]. split; [exact Hr|]. split; [|exact Hk]. split; [reflexivity|tauto].
+  - eexists. split; [exact S|]. cbn [rg_id rg_plan fp_mask fp_jc]. split; [|reflexivity]. split; [exact Hr|]. split; [|exact Hk]. split; [reflexivity|tauto].
+  - eexists. split; [exact S|]. cbn [rg_id rg_plan fp_mask fp_jc]. split; [|reflexivity]. split; [exact Hr|]. split; [|exact Hk]. split; [exact Hc|].
+    destruct Hp as [_ Hj]. unfold jc_ok, jc_reset in *. cbn [jc_avail jc_preferred jc_avail_prev jc_previous]. tauto.
+Qed.
+
+Section MacNoPanic.
+  Variable enc : list N -> list N -> list N.
+  Variable mac_fn : list N -> list N -> list N.
+  Hypothesis enc_len : forall k b, length (enc k b) = 16.
+
+  (* NO RECEIVED BYTE STRING PANICS THE MAC, in any activation state, in Class A windows or Class C reception; the invariant is kept *)
+  Theorem mac_handle_rx_total m bytes snr mp cc : mac_ok m ->
+    exists o, mac_handle_rx enc mac_fn m bytes snr mp cc = Val o /\ (forall mo, o = Some mo -> mac_ok (mo_mac mo)).
+  Proof.
+    intros [Hrg Hcf]. unfold mac_handle_rx. destruct (m_state m) as [s|nonce c|] eqn:Es.
+    - destruct (handle_rx_session_total enc mac_fn s (m_cfg m) (m_region m) bytes mp snr cc Hrg Hcf) as [o [E [R C]]].
+      rewrite E. eexists. split; [reflexivity|]. intros mo H. injection H as <-. split; assumption.
+    - destruct cc; [eexists; split; [reflexivity|]; intros mo H; discriminate|].
+      unfold otaa_handle_rx.
+      destruct (ja_check_mic_and_decrypt enc mac_fn bytes (cr_appkey c)) as [[u|e] clear] eqn:Ej.
+      + destruct u. pose proof (ja_clear_length enc mac_fn bytes (cr_appkey c) clear enc_len Ej) as Hl.
+        pose proof (cfl_of_clear_shape clear Hl) as Hsh. unfold join_cflist in Hsh.
+        destruct (region_join_accept_total (m_region m) _ Hrg Hsh) as [g' [Eg [Rg Ug]]]. rewrite Eg.
+        eexists. split; [reflexivity|]. intros mo H. injection H as <-. cbn [mo_mac]. split; cbn [m_region m_cfg]; [exact Rg|].
+        destruct Hcf as [C1 C2]. split; cbn [cf_data_rate cf_rx1_dr_offset]; [rewrite Ug; exact C1|].
+        unfold rx1_dr_offset_validate. destruct (_ <=? r_max_rx1_off _)%N eqn:Eo; [|exact C2].
+        pose proof (max_off_lt_8 _ (proj1 Hrg)). lia.
+      + eexists. split; [reflexivity|]. intros mo H. injection H as <-. split; assumption.
+    - destruct cc; eexists; (split; [reflexivity|]); intros mo H; [discriminate|]. injection H as <-. split; assumption.
+  Qed.
+
+  Theorem mac_rx2_complete_ok m : mac_ok m -> mac_ok (fst (mac_rx2_complete m)).
+  Proof.
+    intros [Hrg Hcf]. unfold mac_rx2_complete. destruct (m_state m) as [s|nonce c|]; [|split; assumption|split; assumption].
+    pose proof (rx2_complete_cfg_ok s (m_cfg m) (m_region m) Hrg Hcf) as Hc.
+    destruct (rx2_complete_session s (m_cfg m) (rg_id (m_region m))) as [[s' cf'] resp]. cbn [fst snd] in *. split; assumption.
+  Qed.
+End MacNoPanic.
+
+(* ------------------------------------------------------------------ transmit path: channel selection never panics *)
+Lemma rposition_acc l : forall k a, rposition_some l k (Some a) <> None.
+Proof. induction l as [|[c|] l IH]; intros k a; cbn [rposition_some]; [discriminate|apply IH|apply IH]. Qed.
+
+Lemma rposition_defined l : forall i c k acc, nth_error l i = Some (Some c) -> rposition_some l k acc <> None.
+Proof.
+  induction l as [|x l IH]; intros i c k acc H; [destruct i; discriminate|].
+  destruct i as [|i]; cbn [nth_error] in H.
+  - injection H as ->. cbn [rposition_some]. apply rposition_acc.
+  - destruct x; cbn [rposition_some]; [apply rposition_acc|exact (IH i c _ _ H)].
+Qed.
+
+Lemma dyn_random_total r p d : dyn_ok r p -> (1 <= r_num_join r)%N -> exists chn, dyn_random_in_range p d = Val chn /\ (chn <= 31)%N.
+Proof.
+  intros [_ [_ Hj]] HJ. destruct (Hj 0 ltac:(lia)) as [c [Hc _]]. unfold dyn_random_in_range.
+  destruct (rposition_some (dp_channels p) 0 None) as [hi|] eqn:E; [|exfalso; exact (rposition_defined _ _ _ _ _ Hc E)].
+  eexists. split; [reflexivity|].
+  pose proof (land_le_r d 31). pose proof (land_le_r d 15). pose proof (land_le_r d 7).
+  destruct (Nat.ltb 16 (S hi)); [lia|]. destruct (Nat.ltb 8 (S hi)); lia.
+Qed.
+
+Lemma is_enabled_total m c : (c <= 71)%N -> exists b, is_enabled m c = Val b.
+Proof. intros H. unfold is_enabled. destruct (71 <? c)%N eqn:E; [lia|]. eexists; reflexivity. Qed.
+
+Lemma dyn_select_data_no_panic r p dr dt : dyn_ok r p -> (1 <= r_num_join r)%N -> datarate_index r dr = Val (Some dt) ->
+  forall draws, dyn_select_data r p dr draws <> Panic.
+Proof.
+  intros Hok HJ Hd. induction draws as [|d ds IH]; [discriminate|]. cbn [dyn_select_data].
+  destruct (dyn_random_total r p d Hok HJ) as [chn [Ec Hle]]. rewrite Ec.
+  destruct (is_enabled_total (dp_mask p) chn ltac:(lia)) as [b Eb]. rewrite Eb.
+  destruct b; [|exact IH]. destruct (nth _ _ _); [rewrite Hd; discriminate|exact IH].
+Qed.
+
+Lemma dyn_select_join_no_panic r p dr dt : dyn_ok r p -> datarate_index r dr = Val (Some dt) ->
+  forall draws, dyn_select_join r p dr draws <> Panic.
+Proof.
+  intros [_ [_ Hj]] Hd. induction draws as [|d ds IH]; [discriminate|]. cbn [dyn_select_join].
+  destruct (r_num_join r <=? N.land d 3)%N eqn:E; [exact IH|]. apply N.leb_gt in E.
+  destruct (Hj (N.to_nat (N.land d 3)) ltac:(lia)) as [c [Hc _]]. rewrite (nth_error_nth _ _ None Hc), Hd. discriminate.
+Qed.
+
+(* fixed plans *)
+Lemma fixed_tables : forall r, r_fixed r = true -> length (r_uplink r) = 72 /\ length (r_downlink r) = 8 /\
+  get_datarate r (r_join_dr r false) <> None /\ get_datarate r (r_join_dr r true) <> None.
+Proof.
+  intros r H. unfold r_fixed in H. apply orb_true_iff in H. destruct H as [H|H]; apply N.eqb_eq in H; subst r; vm_compute; repeat split; discriminate.
+Qed.
+
+Lemma fix_mk_tx_total r dr chn p rest dt : r_fixed r = true -> (chn <= 71)%N -> datarate_index r dr = Val (Some dt) ->
+  exists tc, fix_mk_tx r dr chn p rest = Val (tc, p, rest) /\ tc_dr tc = dr.
+Proof.
+  intros Hf Hc Hd. destruct (fixed_tables r Hf) as [L1 [L2 _]]. unfold fix_mk_tx. rewrite Hd.
+  destruct (nth_error (r_uplink r) (N.to_nat chn)) as [f|] eqn:E1; [|apply nth_error_None in E1; lia].
+  destruct (nth_error (r_downlink r) (N.to_nat (chn mod 8))) as [f1|] eqn:E2; [|apply nth_error_None in E2; lia].
+  eexists. split; reflexivity.
+Qed.
+
+Lemma avail_scan_ok m bank : (bank <= 8)%N -> forall steps entropy used draws,
+  avail_scan m bank entropy used steps draws <> Panic /\
+  forall chn rest, avail_scan m bank entropy used steps draws = Val (chn, rest) -> (chn <= 71)%N.
+Proof.
+  intros Hb. induction steps as [|k IH]; intros entropy used draws; [split; [discriminate|intros; discriminate]|].
+  cbn [avail_scan].
+  assert (Hc : (N.land entropy 7 + bank * 8 <= 71)%N).
+  { pose proof (land_le_r entropy 7). lia. }
+  destruct (is_enabled_total m _ Hc) as [b Eb]. rewrite Eb. destruct b.
+  - split; [discriminate|]. intros chn rest H. injection H as <- _. exact Hc.
+  - destruct (Nat.eqb used 10); [destruct draws as [|d rest]; [split; [discriminate|intros; discriminate]|apply IH]|apply IH].
+Qed.
+
+Lemma jc_pick_ok j draws : jc_ok j ->
+  avail_get_next j draws <> Panic /\
+  forall chn j' rest, avail_get_next j draws = Val (chn, j', rest) -> (chn <= 71)%N /\ jc_ok j'.
+Proof.
+  intros [H9 [Hp [Hv Hpr]]]. unfold avail_get_next.
+  set (dp := if is_exhausted (jc_avail j) then (mask_default, None) else (jc_avail j, jc_avail_prev j)).
+  assert (Hdp : length (fst dp) = 9 /\ match snd dp with Some pv => (pv <= 71)%N | None => True end).
+  { subst dp. destruct (is_exhausted (jc_avail j)); cbn [fst snd]; [split; [reflexivity|exact I]|split; assumption]. }
+  destruct dp as [data prev]. cbn [fst snd] in Hdp. destruct Hdp as [Hl Hpv].
+  set (pick := match prev with
+               | Some pv => if (255 <? pv + 8)%N then Panic else
+                   match is_enabled data ((pv + 8) mod 72) with
+                   | Val true => Val ((pv + 8) mod 72, draws)%N
+                   | Val false => match draws with [] => OutOfDraws | d :: rest => avail_scan data ((pv + 8) mod 72 / 8) d 1 (12 * (1 + length rest)) rest end
+                   | Panic => Panic | OutOfDraws => OutOfDraws end
+               | None => match draws with [] => OutOfDraws | d :: rest => Val (N.land (d mod 256) 63, rest) end end).
+  assert (Hpick : pick <> Panic /\ forall chn rest, pick = Val (chn, rest) -> (chn <= 71)%N).
+  { subst pick. destruct prev as [pv|].
+    - destruct (255 <? pv + 8)%N eqn:E; [lia|].
+      assert (Hn : ((pv + 8) mod 72 <= 71)%N) by (assert ((pv + 8) mod 72 < 72)%N by (apply N.mod_lt; discriminate); lia).
+      destruct (is_enabled_total data _ Hn) as [b Eb]. rewrite Eb. destruct b.
+      + split; [discriminate|]. intros chn rest H. injection H as <- _. exact Hn.
+      + destruct draws as [|d rest]; [split; [discriminate|intros; discriminate]|].
+        apply avail_scan_ok. assert ((pv + 8) mod 72 < 72)%N by (apply N.mod_lt; discriminate). lia.
+    - destruct draws as [|d rest]; [split; [discriminate|intros; discriminate]|]. split; [discriminate|].
+      intros chn r0 H. injection H as <- _. pose proof (land_le_r (d mod 256) 63). lia. }
+  fold pick. destruct Hpick as [P1 P2]. destruct pick as [[chn rest]| |]; [|congruence|split; [discriminate|intros; discriminate]].
+  specialize (P2 chn rest eq_refl).
+  destruct (set_channel_total data chn false) as [d' [A B]]; [rewrite Hl; lia|]. rewrite A.
+  split; [discriminate|]. intros c j' r0 H. injection H as <- <- _. split; [exact P2|].
+  unfold jc_ok. cbn [jc_avail jc_preferred jc_avail_prev jc_previous]. repeat split; try assumption; lia.
+Qed.
+
+Lemma jc_get_next_ok j draws : jc_ok j ->
+  jc_get_next j draws <> Panic /\
+  forall chn j' rest, jc_get_next j draws = Val (chn, j', rest) -> (chn <= 71)%N /\ jc_ok j'.
+Proof.
+  intros Hj. pose proof Hj as [H9 [Hp [Hv Hpr]]]. unfold jc_get_next.
+  assert (Hbump : jc_ok {| jc_max_retries := jc_max_retries j; jc_num_retries := jc_num_retries j + 1; jc_preferred := jc_preferred j;
+                           jc_avail := jc_avail j; jc_avail_prev := jc_avail_prev j; jc_previous := jc_previous j |}).
+  { unfold jc_ok. cbn [jc_avail jc_preferred jc_avail_prev jc_previous]. tauto. }
+  destruct (jc_preferred j) as [sb|] eqn:Ep; [|exact (jc_pick_ok _ draws Hbump)]. cbv iota in Hp.
+  destruct (jc_num_retries j <? jc_max_retries j)%N; [|exact (jc_pick_ok _ draws Hbump)].
+  destruct draws as [|d rest]; [split; [discriminate|intros; discriminate]|].
+  assert (Hc : (d mod 8 + (sb - 1) * 8 <= 63)%N) by (assert (d mod 8 < 8)%N by (apply N.mod_lt; discriminate); lia).
+  destruct (jc_num_retries j + 1 =? jc_max_retries j)%N.
+  - destruct (set_channel_total (jc_avail j) (d mod 8 + (sb - 1) * 8) false) as [av [A B]]; [rewrite H9; lia|]. rewrite A.
+    split; [discriminate|]. intros chn j' r0 H. injection H as <- <- _. split; [lia|].
+    unfold jc_ok. cbn [jc_avail jc_preferred jc_avail_prev jc_previous]. repeat split; try assumption; lia.
+  - split; [discriminate|]. intros chn j' r0 H. injection H as <- <- _. split; [lia|].
+    unfold jc_ok. cbn [jc_avail jc_preferred jc_avail_prev jc_previous]. repeat split; try assumption; lia.
+Qed.
+
+Lemma fix_draw_ok m bits base : (bits + base <= 71)%N -> forall draws,
+  fix_draw_enabled m bits base draws <> Panic /\ forall chn rest, fix_draw_enabled m bits base draws = Val (chn, rest) -> (chn <= 71)%N.
+Proof.
+  intros Hb. induction draws as [|d ds IH]; [split; [discriminate|intros; discriminate]|]. cbn [fix_draw_enabled].
+  assert (Hc : (N.land d bits + base <= 71)%N) by (pose proof (land_le_r d bits); lia).
+  destruct (is_enabled_total m _ Hc) as [b Eb]. rewrite Eb. destruct b; [|exact IH].
+  split; [discriminate|]. intros chn rest H. injection H as <- _. exact Hc.
+Qed.
+
+Lemma fallback_mask_len m wide : length m = 9 -> length (fix_fallback_mask m wide) = 9.
+Proof.
+  intros H. unfold fix_fallback_mask. destruct wide.
+  - destruct (any_enabled m 64 8); [exact H|]. rewrite set_nth_length. exact H.
+  - destruct (any_enabled m 0 64); [exact H|]. rewrite app_length, repeat_length, skipn_length, H. reflexivity.
+Qed.
+
+Lemma dr_table_len : forall r, (r < 9)%N -> length (r_datarates r) <= 16.
+Proof.
+  intros r H. assert (E : forallb (fun r => Nat.leb (length (r_datarates r)) 16) (map N.of_nat (seq 0 9)) = true) by (vm_compute; reflexivity).
+  rewrite forallb_forall in E. apply Nat.leb_le. apply E. apply in_map_iff. exists (N.to_nat r). split; [lia|apply in_seq; lia].
+Qed.
+Lemma dr_index_lt_16 r d x : (r < 9)%N -> datarate_index r d = Val (Some x) -> (d < 16)%N.
+Proof.
+  intros Hr H. unfold datarate_index in H. destruct (nth_error (r_datarates r) (N.to_nat d)) eqn:E; [|discriminate].
+  assert (N.to_nat d < length (r_datarates r)) by (apply nth_error_Some; congruence). pose proof (dr_table_len r Hr). lia.
+Qed.
+
+Theorem fix_select_ok r p dr dt join draws : (r < 9)%N -> r_fixed r = true -> length (fp_mask p) = 9 -> jc_ok (fp_jc p) ->
+  datarate_index r dr = Val (Some dt) ->
+  fix_select r p dr join draws <> Panic /\
+  forall tc p' rest, fix_select r p dr join draws = Val (tc, p', rest) -> length (fp_mask p') = 9 /\ jc_ok (fp_jc p') /\ (tc_dr tc < 16)%N.
+Proof.
+  intros Hr Hf H9 Hj Hd. destruct (fixed_tables r Hf) as [_ [_ [J1 J2]]].
+  assert (Hvia : forall via, via = match jc_get_next (fp_jc p) draws with
+      | Val (chn, j', rest) => fix_mk_tx r (r_join_dr r (negb (chn <? 64)%N)) chn {| fp_mask := fp_mask p; fp_jc := j' |} rest
+      | Panic => Panic | OutOfDraws => OutOfDraws end ->
+      via <> Panic /\ forall tc p' rest, via = Val (tc, p', rest) -> length (fp_mask p') = 9 /\ jc_ok (fp_jc p') /\ (tc_dr tc < 16)%N).
+  { intros via ->. destruct (jc_get_next_ok (fp_jc p) draws Hj) as [N1 N2].
+    destruct (jc_get_next (fp_jc p) draws) as [[[chn j'] rest]| |]; [|congruence|split; [discriminate|intros; discriminate]].
+    destruct (N2 chn j' rest eq_refl) as [Hc Hj'].
+    assert (Hjd : exists x, datarate_index r (r_join_dr r (negb (chn <? 64)%N)) = Val (Some x)).
+    { destruct (negb (chn <? 64)%N).
+      - destruct (get_datarate r (r_join_dr r true)) as [x|] eqn:E; [|congruence]. exists x. exact (datarate_index_of_get _ _ _ E).
+      - destruct (get_datarate r (r_join_dr r false)) as [x|] eqn:E; [|congruence]. exists x. exact (datarate_index_of_get _ _ _ E). }
+    destruct Hjd as [x Hx].
+    destruct (fix_mk_tx_total r _ chn {| fp_mask := fp_mask p; fp_jc := j' |} rest x Hf Hc Hx) as [tc [E Edr]]. rewrite E.
+    split; [discriminate|]. intros tc0 p' r0 H. injection H as <- <- _. cbn [fp_mask fp_jc]. split; [exact H9|]. split; [exact Hj'|].
+    rewrite Edr. exact (dr_index_lt_16 r _ x Hr Hx). }
+  assert (Hmasked : fix_select_masked r p dr draws <> Panic /\
+      forall tc p' rest, fix_select_masked r p dr draws = Val (tc, p', rest) -> length (fp_mask p') = 9 /\ jc_ok (fp_jc p') /\ (tc_dr tc < 16)%N).
+  { unfold fix_select_masked. rewrite Hd. destruct dt as [[sf bw] mp].
+    set (m := fix_fallback_mask (fp_mask p) (bw =? 9)%N).
+    assert (Hm : length m = 9) by (apply fallback_mask_len; exact H9).
+    assert (Hdraw : forall dd, dd = (if (bw =? 9)%N then fix_draw_enabled m 7 64 draws else fix_draw_enabled m 63 0 draws) ->
+                    dd <> Panic /\ forall chn rest, dd = Val (chn, rest) -> (chn <= 71)%N).
+    { intros dd ->. destruct (bw =? 9)%N; apply fix_draw_ok; lia. }
+    destruct (Hdraw _ eq_refl) as [D1 D2].
+    destruct (if (bw =? 9)%N then fix_draw_enabled m 7 64 draws else fix_draw_enabled m 63 0 draws) as [[chn rest]| |];
+      [|congruence|split; [discriminate|intros; discriminate]].
+    destruct (fix_mk_tx_total r dr chn {| fp_mask := m; fp_jc := fp_jc p |} rest _ Hf (D2 chn rest eq_refl) Hd) as [tc [E Edr]]. rewrite E.
+    split; [discriminate|]. intros tc0 p' r0 H. injection H as <- <- _. cbn [fp_mask fp_jc]. split; [exact Hm|]. split; [exact Hj|].
+    rewrite Edr. exact (dr_index_lt_16 r _ _ Hr Hd). }
+  unfold fix_select. cbv zeta.
+  destruct join; [apply Hvia; reflexivity|].
+  destruct (jc_has_bias (fp_jc p)); [apply Hvia; reflexivity|].
+  destruct (jc_preferred (fp_jc p)) as [sb|]; [|exact Hmasked].
+  destruct (negb (jc_num_retries (fp_jc p) =? 0)%N); [|exact Hmasked].
+  destruct draws as [|d rest]; [split; [discriminate|intros; discriminate]|].
+  rewrite Hd. destruct dt as [[sf bw] mp].
+  pose proof Hj as [A9 [Ap [Av Apr]]].
+  set (pc := jc_previous (jc_clear_bias (fp_jc p))). assert (Hpc : (pc <= 71)%N) by exact Apr.
+  set (sb' := if (pc <? 64)%N then (pc / 8)%N else (pc mod 8)%N).
+  assert (Hsb : (sb' <= 7)%N).
+  { subst sb'. destruct (pc <? 64)%N eqn:E; [apply N.ltb_lt in E; lia|]. assert (pc mod 8 < 8)%N by (apply N.mod_lt; discriminate). lia. }
+  set (c := (N.land d 7 + sb' * 8)%N). assert (Hc : (c <= 63)%N) by (subst c; pose proof (land_le_r d 7); lia).
+  assert (Hch : ((if (bw =? 9)%N then 64 + c / 8 else c) <= 71)%N) by (destruct (bw =? 9)%N; lia).
+  destruct (fix_mk_tx_total r dr _ {| fp_mask := fp_mask p; fp_jc := jc_clear_bias (fp_jc p) |} rest _ Hf Hch Hd) as [tc [E Edr]].
+  fold pc. fold sb'. fold c. rewrite E.
+  split; [discriminate|]. intros tc0 p' r0 H. injection H as <- <- _. cbn [fp_mask fp_jc]. split; [exact H9|]. split.
+  - unfold jc_ok, jc_clear_bias. cbn [jc_avail jc_preferred jc_avail_prev jc_previous]. tauto.
+  - rewrite Edr. exact (dr_index_lt_16 r _ _ Hr Hd).
+Qed.
+
+(* region level: selection never panics, keeps the shape invariant, and uses a data rate below 16 *)
+Theorem region_select_ok g dr dt join draws : region_ok g -> datarate_index (rg_id g) dr = Val (Some dt) ->
+  region_select g dr join draws <> Panic /\
+  forall tc g' rest, region_select g dr join draws = Val (tc, g', rest) ->
+    region_ok g' /\ (forall d, uplink_dr g' d = uplink_dr g d) /\ rg_id g' = rg_id g /\ (tc_dr tc < 16)%N.
+Proof.
+  intros [Hr [Hp Hk]] Hd. unfold region_select, plan_shape, plan_kind in *.
+  destruct (rg_plan g) as [p|p] eqn:Ep.
+  - destruct Hp as [Hok [H9 HJ]]. destruct join.
+    + pose proof (dyn_select_join_no_panic _ _ _ _ Hok Hd draws) as NP.
+      destruct (dyn_select_join (rg_id g) p dr draws) as [[tc rest]| |] eqn:Es; [|congruence|split; [discriminate|intros; discriminate]].
+      split; [discriminate|]. intros tc0 g' r0 H. injection H as <- <- _.
+      split; [unfold region_ok, plan_shape, plan_kind; rewrite Ep; tauto|]. split; [reflexivity|]. split; [reflexivity|].
+      destruct (dyn_join_legal g p dr draws tc g rest Ep Hok) as [_ [_ [_ [Edr _]]]].
+      { unfold region_select. rewrite Ep, Es. reflexivity. }
+      rewrite Edr. exact (dr_index_lt_16 _ _ _ Hr Hd).
+    + destruct (dyn_fallback_usable _ _ Hok H9 HJ) as [U1 [U2 U3]].
+      assert (Hok1 : dyn_ok (rg_id g) (dyn_fallback (rg_id g) p)).
+      { destruct Hok as [A [B C]]. unfold dyn_ok. rewrite U2. tauto. }
+      assert (H91 : length (dp_mask (dyn_fallback (rg_id g) p)) = 9).
+      { unfold dyn_fallback. destruct (dyn_mask_validate p (dp_mask p)); [exact H9|]. cbn [dp_mask].
+        generalize (seq 0 (N.to_nat (r_num_join (rg_id g)))). intros l.
+        assert (Hl : forall i, In i l -> i < 16 -> True) by auto.
+        revert H9. generalize (dp_mask p). induction l as [|i l IH]; intros m Hm; [exact Hm|]. cbn [fold_left]. apply IH.
+        - intros; exact I.
+        - unfold set_channel. destruct (Nat.ltb (N.to_nat (N.of_nat i / 8)) (length m)); [rewrite set_nth_length; exact Hm|exact Hm]. }
+      pose proof (dyn_select_data_no_panic _ _ _ _ Hok1 ltac:(lia) Hd draws) as NP.
+      destruct (dyn_select_data (rg_id g) (dyn_fallback (rg_id g) p) dr draws) as [[tc rest]| |] eqn:Es; [|congruence|split; [discriminate|intros; discriminate]].
+      split; [discriminate|]. intros tc0 g' r0 H. injection H as <- <- _.
+      split; [unfold region_ok, plan_shape, plan_kind; cbn [rg_id rg_plan]; tauto|]. split; [unfold uplink_dr; cbn [rg_plan rg_id]; rewrite Ep; reflexivity|].
+      split; [reflexivity|].
+      destruct (dyn_select_data_legal _ _ _ _ _ _ Es) as [c [_ [_ [_ [_ [Edr _]]]]]]. rewrite Edr. exact (dr_index_lt_16 _ _ _ Hr Hd).
+  - destruct Hp as [H9 Hj]. destruct (fix_select_ok (rg_id g) p dr dt join draws Hr Hk H9 Hj Hd) as [NP R].
+    destruct (fix_select (rg_id g) p dr join draws) as [[[tc p'] rest]| |]; [|congruence|split; [discriminate|intros; discriminate]].
+    split; [discriminate|]. intros tc0 g' r0 H. injection H as <- <- _. destruct (R tc p' rest eq_refl) as [A [B C]].
+    split; [unfold region_ok, plan_shape, plan_kind; cbn [rg_id rg_plan]; tauto|]. split; [unfold uplink_dr; cbn [rg_plan rg_id]; rewrite Ep; reflexivity|].
+    split; [reflexivity|exact C].
+Qed.
+
+Lemma default_power : forall r, (r < 9)%N -> tx_power_adjust r 0 <> None.
+Proof.
+  intros r H. assert (E : forallb (fun r => match tx_power_adjust r 0 with Some _ => true | None => false end) (map N.of_nat (seq 0 9)) = true) by (vm_compute; reflexivity).
+  rewrite forallb_forall in E. specialize (E r). destruct (tx_power_adjust r 0); [discriminate|].
+  discriminate E. apply in_map_iff. exists (N.to_nat r). split; [lia|apply in_seq; lia].
+Qed.
+
+Theorem rx_windows_total m tc : (rg_id (m_region m) < 9)%N -> (tc_dr tc < 16)%N -> (cf_rx1_dr_offset (m_cfg m) < 8)%N ->
+  exists w, rx_windows m tc = Val w.
+Proof.
+  intros Hr Hd Ho. unfold rx_windows. cbv zeta.
+  destruct (window_dr_total _ _ _ Hr Hd Ho) as [d1 [E1 [L1 [E2 _]]]]. rewrite E1.
+  destruct (build_rf_config_total m (tc_rx1_freq tc) d1 (tc_dr tc) Hr Hd Ho) as [a [Ea _]]. rewrite Ea.
+  unfold rx2_rf_config. cbv zeta. rewrite E2.
+  destruct (cf_rx2_data_rate (m_cfg m)) as [d|].
+  - destruct (build_rf_config_total m (match cf_rx2_frequency (m_cfg m) with Some f => f | None => r_rx2_freq (rg_id (m_region m)) end) d (tc_dr tc) Hr Hd Ho) as [b [Eb _]].
+    rewrite Eb. eexists; reflexivity.
+  - destruct (build_rf_config_total m (match cf_rx2_frequency (m_cfg m) with Some f => f | None => r_rx2_freq (rg_id (m_region m)) end) (rp_rx2_dr (rg_id (m_region m))) (tc_dr tc) Hr Hd Ho) as [b [Eb _]].
+    rewrite Eb. eexists; reflexivity.
+Qed.
+
+Section SendNoPanic.
+  Variable enc : list N -> list N -> list N.
+  Variable mac_fn : list N -> list N -> list N.
+
+  (* the part of send / join_otaa after the frame has been built: never panics, keeps the invariant *)
+  Lemma tx_tail_ok m1 dr join draws : mac_ok m1 -> (exists dt, datarate_index (rg_id (m_region m1)) dr = Val (Some dt)) ->
+    forall mp,
+    match create_tx_config (m_region m1) dr join draws with
+    | Val (pw0, rf, tc, rg', rest') =>
+      match adjust_power pw0 mp (m_gain m1) with
+      | Val pw => exists w, rx_windows (with_region m1 rg') tc = Val w /\ mac_ok (with_region m1 rg')
+      | _ => False end
+    | Panic => False
+    | OutOfDraws => True
+    end.
+  Proof.
+    intros [Hrg Hcf] [dt Hd] mp. unfold create_tx_config.
+    destruct (region_select_ok (m_region m1) dr dt join draws Hrg Hd) as [NP R].
+    destruct (region_select (m_region m1) dr join draws) as [[[tc rg'] rest]| |]; [|congruence|exact I].
+    destruct (R tc rg' rest eq_refl) as [R1 [R2 [R3 R4]]].
+    destruct (tx_power_adjust (rg_id (m_region m1)) 0) as [p0|] eqn:Ep; [|exfalso; exact (default_power _ (proj1 Hrg) Ep)].
+    unfold adjust_power.
+    assert (Hok : mac_ok (with_region m1 rg')).
+    { unfold mac_ok, with_region. cbn [m_region m_cfg]. split; [exact R1|]. destruct Hcf as [C1 C2]. split; [rewrite R2; exact C1|exact C2]. }
+    destruct (rx_windows_total (with_region m1 rg') tc) as [w Ew]; [cbn [with_region m_region]; rewrite R3; exact (proj1 Hrg)|exact R4|exact (proj2 Hcf)|].
+    exists w. split; [exact Ew|exact Hok].
+  Qed.
+
+  (* SEND: the only panics are the two deliberate panic!s of prepare_buffer (application misuse: data on port 0; a payload that
+     does not fit the frame together with the queued MAC answers) *)
+  Theorem send_panics_only_in_prepare_buffer m data fport confirmed draws : mac_ok m ->
+    send enc mac_fn m data fport confirmed draws = Panic ->
+    exists s, m_state m = Joined s /\ prepare_buffer enc mac_fn s (m_cfg m) (rg_id (m_region m)) data fport confirmed = Panic.
+  Proof.
+    intros Hok H. unfold send in H. destruct (m_state m) as [s|n c|] eqn:Es; try discriminate.
+    exists s. split; [reflexivity|].
+    destruct (prepare_buffer enc mac_fn s (m_cfg m) (rg_id (m_region m)) data fport confirmed) as [[[s' fcnt] frame]| |]; [|reflexivity|discriminate].
+    exfalso. set (m1 := with_state m (Joined s')) in *.
+    assert (Hok1 : mac_ok m1) by exact Hok.
+    destruct Hok as [Hrg [C1 C2]].
+    destruct (uplink_dr (m_region m) (cf_data_rate (m_cfg m))) as [x|] eqn:Eu; [|congruence].
+    pose proof (tx_tail_ok m1 (cf_data_rate (m_cfg m1)) false draws Hok1
+                  (ex_intro _ x (datarate_index_of_get _ _ _ (uplink_dr_defined _ _ _ Eu)))
+                  (N.min (match cf_tx_power (m_cfg m1) with Some p => p | None => m_max_power m1 end) (m_max_power m1))) as T.
+    destruct (create_tx_config (m_region m1) (cf_data_rate (m_cfg m1)) false draws) as [[[[[pw0 rf] tc] rg'] rest']| |]; [|exact T|discriminate].
+    destruct (adjust_power pw0 _ (m_gain m1)) as [pw| |]; [|exact T|exact T].
+    destruct T as [w [Ew _]]. rewrite Ew in H. destruct w. discriminate.
+  Qed.
+
+  Theorem send_keeps_invariant m data fport confirmed draws o : mac_ok m ->
+    send enc mac_fn m data fport confirmed draws = Val (SendOk o) -> mac_ok (to_mac o).
+  Proof.
+    intros Hok H. unfold send in H. destruct (m_state m) as [s|n c|] eqn:Es; try discriminate.
+    destruct (prepare_buffer enc mac_fn s (m_cfg m) (rg_id (m_region m)) data fport confirmed) as [[[s' fcnt] frame]| |]; try discriminate.
+    set (m1 := with_state m (Joined s')) in *.
+    assert (Hok1 : mac_ok m1) by exact Hok.
+    destruct Hok as [Hrg [C1 C2]].
+    destruct (uplink_dr (m_region m) (cf_data_rate (m_cfg m))) as [x|] eqn:Eu; [|congruence].
+    pose proof (tx_tail_ok m1 (cf_data_rate (m_cfg m1)) false draws Hok1
+                  (ex_intro _ x (datarate_index_of_get _ _ _ (uplink_dr_defined _ _ _ Eu)))
+                  (N.min (match cf_tx_power (m_cfg m1) with Some p => p | None => m_max_power m1 end) (m_max_power m1))) as T.
+    destruct (create_tx_config (m_region m1) (cf_data_rate (m_cfg m1)) false draws) as [[[[[pw0 rf] tc] rg'] rest']| |]; try discriminate.
+    destruct (adjust_power pw0 _ (m_gain m1)) as [pw| |]; try discriminate.
+    destruct T as [w [Ew Hm]]. rewrite Ew in H. destruct w. injection H as <-. exact Hm.
+  Qed.
+
+  (* JOIN REQUEST: never panics *)
+  Theorem join_never_panics m c draws : mac_ok m -> (forall k b, length (mac_fn k b) = 16) -> join_otaa mac_fn m c draws <> Panic.
+  Proof.
+    intros Hok Hml. unfold join_otaa. destruct draws as [|d rest]; [discriminate|].
+    unfold build_join_request. rewrite repeat_length. cbn [Nat.ltb Nat.leb].
+    set (m1 := with_state m (Otaa (d mod 65536) c)).
+    assert (Hok1 : mac_ok m1) by exact Hok.
+    destruct Hok as [Hrg [C1 C2]].
+    destruct (uplink_dr (m_region m) (cf_data_rate (m_cfg m))) as [x|] eqn:Eu; [|congruence].
+    pose proof (tx_tail_ok m1 (cf_data_rate (m_cfg m1)) true rest Hok1
+                  (ex_intro _ x (datarate_index_of_get _ _ _ (uplink_dr_defined _ _ _ Eu))) (m_max_power m1)) as T.
+    destruct (create_tx_config (m_region m1) (cf_data_rate (m_cfg m1)) true rest) as [[[[[pw0 rf] tc] rg'] rest']| |]; [|destruct T|discriminate].
+    destruct (adjust_power pw0 _ (m_gain m1)) as [pw| |]; [|destruct T|destruct T].
+    destruct T as [w [Ew _]]. rewrite Ew. destruct w. discriminate.
+  Qed.
+End SendNoPanic.
